@@ -47,6 +47,8 @@ var properties = []propCheck{
 		Subs: []subCheck{
 			{ID: "C38a", World: "unitsim", Quick: 120000, Thorough: 6000000, QuickCap: 60, ThoroughCap: 900,
 				Probes: []string{"cas-window-opened", "lock-timed-out", "yield:lock.create"}},
+			{ID: "C38b", World: "wiresim", Quick: 1600, Thorough: 100000, QuickCap: 80, ThoroughCap: 1200, GC: "100",
+				Probes: []string{"holder-connection-reset", "stall"}},
 		},
 	},
 }
@@ -61,7 +63,9 @@ func init() {
 			Assumptions: []string{"every ProcessList method is a single critical section, so interleaving at call boundaries is complete for the API-level check",
 				"connections follow the calling contract of server/handler.go and server/context.go (no RemoveConnection while the same connection's query is in flight)"},
 			Subs: []subCheck{
-				{ID: "C37a", World: "unitsim", Quick: 60000, Thorough: 3000000, QuickCap: 60, ThoroughCap: 900, Probes: []string{"kill-hit-running-work", "kill"}},
+				{ID: "C37a", World: "unitsim", Quick: 60000, Thorough: 3000000, QuickCap: 60, ThoroughCap: 900, Probes: []string{"kill-hit-running-work", "kill", "stale-endquery-while-next-query-runs"}},
+				{ID: "C37b", World: "wiresim", Quick: 2400, Thorough: 150000, QuickCap: 80, ThoroughCap: 1200, GC: "100",
+					Probes: []string{"kill-query-hit-running-statement", "processlist-compared", "kill-connection", "reset-mid-statement"}},
 			},
 		},
 		propCheck{
